@@ -171,9 +171,10 @@ def generate(rng, seed, run, tier, xmode=False):
                       rng.choice(['method', 'op'])]
             elif kind == 'd_take':
                 r = rng.random()
-                objs = None if r < 0.3 else _sub(rng, t.objs * 3 + onames[:1], 0, 4)
+                unk = rng.random() < 0.25   # several unknown names: the error lists them
+                objs = None if r < 0.3 else _sub(rng, t.objs * 3 + (onames if unk else onames[:1]), 0, 5 if unk else 4)
                 r = rng.random()
-                props = None if r < 0.3 else _sub(rng, t.props * 3 + pnames[:1], 0, 4)
+                props = None if r < 0.3 else _sub(rng, t.props * 3 + (pnames if unk else pnames[:1]), 0, 5 if unk else 4)
                 ev = [kind, s, objs, props, int(rng.random() < 0.5), dst]
             else:  # pragma: no cover
                 raise AssertionError(kind)
